@@ -77,7 +77,8 @@ func VerifC13Traversal() {
 		vrtMapOrder([]int{0, 3, 4}[vrtChoice("maporder", 3)])
 	}
 	before := vrtClone(p).(*types.Project)
-	reverse := vrtChoice("reverse", 2) == 1
+	// NOREVERSE=1: this entry only walks forward (the reverse direction is left to the other entries)
+	reverse := vrtParam("NOREVERSE", 0) == 0 && vrtChoice("reverse", 2) == 1
 	limit := vrtChoice("limit", vrtParam("LIMITS", 3)) // 0 unbounded, 1, 2
 	failAt := []string{"", "a", "b", "c"}[vrtChoice("failAt", vrtParam("FAILS", 4))]
 	var opts []func(*Options)
